@@ -63,7 +63,15 @@ def history_case(draw):
         mi = draw(st.integers(0, len(classes) - 1))
         cs = classes[mi]
         params = model_params(cs)
-        kind = draw(st.sampled_from(['change', 'change', 'change', 'change', 'do', 'name', 'limit']))
+        kind = draw(st.sampled_from(['change', 'change', 'change', 'change', 'do', 'name', 'limit', 'readfail']))
+        readable = [p for p in params.values() if p.get('read') and p['wire'] and not p.get('constant')]
+        if kind == 'readfail':
+            if readable:
+                # a failing read leaves the parameter in an error state (the cached value stays): changes go on as before
+                p = draw(st.sampled_from(readable))
+                reqs.append({'op': 'readfail', 'mod': mi, 'param': p['name'], 'payload': None})
+                continue
+            kind = 'change'
         if kind == 'do' and not cs['cmds']:
             kind = 'change'
         if kind == 'limit' and not any(p.get('islimit') for p in params.values()):
@@ -244,7 +252,11 @@ def run_history(ctx, case):
         marks.append(len(sock.out))
     chunks.append(hook)
     for r in case['reqs']:
-        if r['op'] == 'change':
+        if r['op'] == 'readfail':
+            wire = model_params(case['classes'][r['mod']])[r['param']]['wire']
+            action, spec = 'read', f'm{r["mod"]}:{wire}'
+            chunks.append(lambda sock, rec=recs[r['mod']], n=r['param']: rec.setdefault('readfail', set()).add(n))
+        elif r['op'] == 'change':
             wire = model_params(case['classes'][r['mod']])[r['param']]['wire']
             action, spec = 'change', f'm{r["mod"]}:{wire}'
         elif r['op'] == 'do':
@@ -281,6 +293,11 @@ def judge(ctx, case, i, r, before, after, replies, recs, kit):
     action, spec, data = replies[0]
     newcalls = [c for j, rc in enumerate(recs) for c in driver_calls(rc, before['calls'][j], after['calls'][j])]
     unchanged = before['params'] == after['params'] and before['conn'] == after['conn']
+    if r['op'] == 'readfail':
+        if action != 'error_read' or data[0] != 'HardwareError':
+            ctx.finding('readfail:unexpected-reply', sub, repr(replies)[:200])
+        ctx.label('req:readfail')
+        return
     if r['op'] == 'raw':
         fam = {'module': {'NoSuchModule'}, 'module-case': {'NoSuchModule'}}.get(r['why'])
         if fam is None:
